@@ -2,6 +2,7 @@ import CasbinVerif.Driver.Proto
 import CasbinVerif.Model.Loader
 import CasbinVerif.Model.Distributed
 import CasbinVerif.Model.Rbac
+import CasbinVerif.Spec.Mono
 import CasbinVerif.Spec.Perm
 import CasbinVerif.Spec.Mirror
 /-
@@ -480,6 +481,11 @@ def enfOp (st : EnfSt) (ts : List String) : Option (EnfSt × String × String ×
               let sp := showBool (specLink e.md grouping 10 gt (u :: r :: ds))
               let inHyp := wfG && hOk
               ret e (showBool b) (if inHyp then sp else if stateOk e && ep.prm.isEmpty then "?" ++ sp else "-") inHyp
+          | none => ret e "err" "-" true
+      | "mpos", [] =>
+          -- is the model's matcher inside the hypothesis of the C17 link-monotonicity theorems?
+          match e.md.m.lookup "m" with
+          | some m => ret e (showBool m.positive) "-" true
           | none => ret e "err" "-" true
       | "iroles", gt :: u :: ds => do
           let u ← decodeTok u; let ds ← decodeAll ds
